@@ -8,6 +8,7 @@ import Vibrato.Driver.Tok16
 import Vibrato.Driver.Corpus
 import Vibrato.Driver.Rewriter
 import Vibrato.Driver.Image
+import Vibrato.Driver.MapImage
 import Vibrato.Driver.LexCsv
 import Vibrato.Driver.Conn
 import Vibrato.Driver.Extractor
@@ -53,6 +54,7 @@ def stepLine (fx : Fixes) (st : DState) (line : String) : DState × String :=
     -- `C05.reread_equal`: the image of a well-formed dictionary is always read back
     (st, s!"imagebig {id} MODEL ok")
   | "image" :: id :: rest => (st, s!"image {id} MODEL {Image.handle (input rest)}")
+  | "mapimg" :: id :: rest => (st, s!"mapimg {id} MODEL {MapImage.handle fx.f3 (input rest)}")
   | "csv" :: id :: rest =>
     let inp := input rest
     let inp := if inp.head? == some "LEX" then inp ++ ["FIXED", if fx.f8 then "1" else "0"] else inp
